@@ -326,6 +326,15 @@ func (c *twoPhaseCommitter) commitFlushedMutations(bo *retry.Backoffer) error {
 	primaryMutation := NewPlainMutations(1)
 	primaryMutation.Push(c.pipelinedCommitInfo.primaryOp, c.primaryKey, nil, false, false, false, false)
 	if err = c.commitMutations(bo, &primaryMutation); err != nil {
+		// Like the 2PC path: when the request that commits the primary key got no answer, it is unknown
+		// whether the transaction is committed. The caller must be told so (and the locks are not cleaned up).
+		if undeterminedErr := c.getUndeterminedErr(); undeterminedErr != nil {
+			logutil.Logger(bo.GetCtx()).Warn("[pipelined dml] commit result undetermined",
+				zap.Error(err),
+				zap.NamedError("rpcErr", undeterminedErr),
+				zap.Uint64("txnStartTS", c.startTS))
+			return errors.WithStack(tikverr.ErrResultUndetermined)
+		}
 		return errors.Trace(err)
 	}
 	c.mu.Lock()
